@@ -162,7 +162,8 @@ def sigs (s : Woodies) (v : List Rat) : List Action × Woodies :=
   let (x, c) := s.s1_cross.next (trend, 0)
   let cr := x.analog
   let cnt : Int := if cr = 0 then s.s1_count + signi trend else cr
-  let s1 : Int := (if cnt.natAbs = s.s1_lag then 1 else 0) * cr
+  -- documented rule: the trend CCI has stayed on one side of zero for `s1_lag` bars (the count is signed)
+  let s1 : Int := (if cnt.natAbs = s.s1_lag then 1 else 0) * Int.sign cnt
   ([Action.ofI8 s1], { s with s1_cross := c, s1_count := cnt })
 end Woodies
 
